@@ -17,6 +17,12 @@ def prim_type(v):
         return ('f64',)
     if isinstance(v, str):
         return ('str', 'alloc::string::String')
+    from .den import VecObj
+    from .places import MapObj
+    if isinstance(v, VecObj):
+        return ('[V]', 'alloc::vec::Vec<V>')          # (the blanket impls for sequences and maps)
+    if isinstance(v, MapObj) and v.sorted:
+        return ('alloc::collections::btree::map::BTreeMap<K, V>',)
     return ()
 
 
@@ -55,6 +61,13 @@ class PrintInterp(PlaceInterp):
                 return self.format_text({'args': e['args'], 'l': e.get('l'), 'k': 'mcall', 'name': 'write_fmt'}, env)       # `format!(..)`: the text
             if p == 'core::hint::must_use' and len(e.get('args', [])) == 1:
                 return self.val(e['args'][0], env)
+            if p == 'core::fmt::Display::fmt' and len(e.get('args', [])) == 2 and not e.get('resolved'):
+                # `Display::fmt(&self.key, f)`: the Display impl of the argument's type writes to the same formatter
+                a0 = deref(self.val(e['args'][0], env))
+                text = a0 if isinstance(a0, str) else self.display_of(a0)
+                self.calls.append(('write_str', [text]))
+                self.trace.append(('write_str', None, [text]))
+                return ('ctor', 'core::result::Result::Ok', ((),))
         return super().val(e, env)
 
     def _mcall(self, e, env):
